@@ -145,6 +145,13 @@ func main() {
 	r.Assume("'placed in the result' is read as: a field that differs from the base carries the endorsement's value (with overwrite and a non-zero base guest policy the base's value may stay)")
 	ctx := output.NewContext(context.Background(), &output.Options{Quiet: true})
 	var jobs []func()
+	// An endorsement whose golden measurement carries rows, a CA bundle, an SVN and TDX rows of its
+	// own and then stops decoding (a stray byte): every derivation from it fails, and nothing of it
+	// may show up in a later derivation.
+	pg, _ := proto.Marshal(&epb.VMGoldenMeasurement{
+		SevSnp: &epb.VMSevSnp{Svn: 9, Policy: 0x30000, Measurements: map[uint32][]byte{1: att.Meas(0xee), 2: att.Meas(0xee), 9: att.Meas(0xee)}, CaBundle: pemOf("CERTIFICATE", []byte("stray-certificate"))},
+		Tdx:    &epb.VMTdx{Measurements: []*epb.VMTdx_Measurement{{RamGib: 0, Mrtd: att.Meas(0xef)}, {RamGib: 16, Mrtd: att.Meas(0xef)}, {RamGib: 64, Mrtd: att.Meas(0xef)}}}})
+	poison := &epb.VMLaunchEndorsement{SerializedUefiGolden: append(pg, 0xff)}
 	for _, e := range endorsements() {
 		payload, _ := proto.Marshal(e.golden)
 		end := &epb.VMLaunchEndorsement{SerializedUefiGolden: payload}
@@ -154,18 +161,22 @@ func main() {
 					for _, au := range []bool{false, true} {
 						e, b, n, ow, au := e, b, n, ow, au
 						id := fmt.Sprintf("sev endorsement=[%s] base=[%s] vmsas=%d overwrite=%v allow_unspecified=%v", e.name, b.name, n, ow, au)
-						jobs = append(jobs, func() { r.Case(id, func() string { return sevCase(r, ctx, id, end, e.golden, b.p, n, ow, au) }) })
+						jobs = append(jobs, func() { r.Case(id, func() string { return sevCase(r, ctx, id, end, e.golden, b.p, n, ow, au, nil) }) })
+						idp := id + " after-undecodable-endorsement"
+						jobs = append(jobs, func() {
+							r.Case(idp, func() string { return sevCase(r, ctx, idp, end, e.golden, b.p, n, ow, au, poison) })
+						})
 					}
 				}
 			}
 		}
 	}
-	tdxJobs(r, ctx, &jobs)
+	tdxJobs(r, ctx, &jobs, poison)
 	r.ParallelFor(len(jobs), func(i int) { jobs[i]() })
 	r.Finish()
 }
 
-func sevCase(r *mc.Run, ctx context.Context, id string, end *epb.VMLaunchEndorsement, g *epb.VMGoldenMeasurement, base *cpb.Policy, n uint32, ow, au bool) string {
+func sevCase(r *mc.Run, ctx context.Context, id string, end *epb.VMLaunchEndorsement, g *epb.VMGoldenMeasurement, base *cpb.Policy, n uint32, ow, au bool, prelude *epb.VMLaunchEndorsement) string {
 	var snapshot *cpb.Policy
 	if base != nil {
 		// every case gets its own copy (cases run in parallel and the code under test may mutate it)
@@ -175,6 +186,11 @@ func sevCase(r *mc.Run, ctx context.Context, id string, end *epb.VMLaunchEndorse
 	var got *cpb.Policy
 	var err error
 	pan, val := mc.Guard(func() {
+		if prelude != nil {
+			// history: another derivation first, in the same goroutine, from an endorsement whose
+			// golden measurement stops decoding after rows, bundle and SVN of its own
+			gcetcbendorsement.SevPolicy(ctx, prelude, &gcetcbendorsement.SevPolicyOptions{LaunchVmsas: n, Overwrite: ow, AllowUnspecifiedVmsas: au})
+		}
 		got, err = gcetcbendorsement.SevPolicy(ctx, end, &gcetcbendorsement.SevPolicyOptions{Base: base, LaunchVmsas: n, Overwrite: ow, AllowUnspecifiedVmsas: au})
 	})
 	r.Eval()
@@ -281,7 +297,7 @@ func sevCase(r *mc.Run, ctx context.Context, id string, end *epb.VMLaunchEndorse
 	return "ok"
 }
 
-func tdxJobs(r *mc.Run, ctx context.Context, jobs *[]func()) {
+func tdxJobs(r *mc.Run, ctx context.Context, jobs *[]func(), poison *epb.VMLaunchEndorsement) {
 	rowsets := map[string][]*epb.VMTdx_Measurement{
 		"rows=default":       {{RamGib: 0, Mrtd: att.Meas(0xa0)}},
 		"rows=16,16e,32,def": {{RamGib: 16, Mrtd: att.Meas(0xa1)}, {RamGib: 16, EarlyAccept: true, Mrtd: att.Meas(0xa2)}, {RamGib: 32, Mrtd: att.Meas(0xa3)}, {RamGib: 0, Mrtd: att.Meas(0xa0)}},
@@ -301,83 +317,92 @@ func tdxJobs(r *mc.Run, ctx context.Context, jobs *[]func()) {
 		for bn, base := range basesT {
 			for _, ram := range []int{0, 16, 64} {
 				for _, ow := range []bool{false, true} {
-					rn, rows, bn, base, ram, ow := rn, rows, bn, base, ram, ow
-					id := fmt.Sprintf("tdx %s base=[%s] ram=%d overwrite=%v", rn, bn, ram, ow)
-					*jobs = append(*jobs, func() {
-						r.Case(id, func() string {
-							var snapshot *tcpb.Policy
-							if base != nil {
-								base = proto.Clone(base).(*tcpb.Policy)
-								snapshot = proto.Clone(base).(*tcpb.Policy)
-							}
-							var got *tcpb.Policy
-							var err error
-							pan, val := mc.Guard(func() {
-								got, err = gcetcbendorsement.TdxPolicy(ctx, end, &gcetcbendorsement.TdxPolicyOptions{Base: base, RAMGiB: ram, Overwrite: ow})
+					for _, after := range []bool{false, true} {
+						rn, rows, bn, base, ram, ow, after := rn, rows, bn, base, ram, ow, after
+						id := fmt.Sprintf("tdx %s base=[%s] ram=%d overwrite=%v", rn, bn, ram, ow)
+						if after {
+							id += " after-undecodable-endorsement"
+						}
+						*jobs = append(*jobs, func() {
+							r.Case(id, func() string {
+								var snapshot *tcpb.Policy
+								if base != nil {
+									base = proto.Clone(base).(*tcpb.Policy)
+									snapshot = proto.Clone(base).(*tcpb.Policy)
+								}
+								var got *tcpb.Policy
+								var err error
+								pan, val := mc.Guard(func() {
+									if after {
+										gcetcbendorsement.TdxPolicy(ctx, poison, &gcetcbendorsement.TdxPolicyOptions{RAMGiB: ram, Overwrite: ow})
+										gcetcbendorsement.SevPolicy(ctx, poison, &gcetcbendorsement.SevPolicyOptions{AllowUnspecifiedVmsas: true})
+									}
+									got, err = gcetcbendorsement.TdxPolicy(ctx, end, &gcetcbendorsement.TdxPolicyOptions{Base: base, RAMGiB: ram, Overwrite: ow})
+								})
+								r.Eval()
+								viol := func(what, msg string) { r.Violation("tdx/"+what, id, msg, map[string]any{"error": fmt.Sprint(err)}) }
+								if pan {
+									viol("panic", fmt.Sprintf("TdxPolicy panicked: %v", val))
+									return "panic"
+								}
+								r.Validated()
+								if base != nil && !proto.Equal(base, snapshot) {
+									viol("base-mutated", "the caller's base policy was modified")
+								}
+								var want [][]byte
+								for _, m := range rows {
+									if ram == 0 || int(m.RamGib) == ram {
+										want = append(want, m.Mrtd)
+									}
+								}
+								if err != nil {
+									if len(want) > 0 && (base.GetTdQuoteBodyPolicy().GetAnyMrTd() == nil || ow) {
+										r.Outcome("plain-derivation-refused") // a failing derivation is always allowed; counted only
+									}
+									r.Outcome("error")
+									return "error"
+								}
+								if base != nil && got == base {
+									viol("result-aliases-base", "the returned policy is the caller's base object")
+								}
+								baseList := base.GetTdQuoteBodyPolicy().GetAnyMrTd()
+								gotList := got.GetTdQuoteBodyPolicy().GetAnyMrTd()
+								keptBase := baseList != nil && eqKeys(gotList, baseList)
+								if !ow && baseList != nil && !keptBase {
+									viol("allow-list-overwritten", "an existing MRTD allow-list was replaced without overwrite")
+								}
+								if !keptBase && (!eqKeys(gotList, want) || len(want) == 0) {
+									viol("allow-list-not-endorsed", "the MRTD allow-list is neither the base's nor exactly the endorsement's rows for the RAM size")
+								}
+								strip := func(p *tcpb.Policy) *tcpb.Policy {
+									c := &tcpb.Policy{}
+									if p != nil {
+										c = proto.Clone(p).(*tcpb.Policy)
+									}
+									if c.TdQuoteBodyPolicy == nil {
+										c.TdQuoteBodyPolicy = &tcpb.TDQuoteBodyPolicy{}
+									}
+									c.TdQuoteBodyPolicy.AnyMrTd = nil
+									return c
+								}
+								if !proto.Equal(strip(got), strip(base)) {
+									viol("unrelated-field-changed", "a base field unrelated to the endorsement differs in the result")
+								}
+								if base != nil {
+									scribble(got.ProtoReflect())
+									if !proto.Equal(base, snapshot) {
+										viol("result-shares-memory-with-base", "writing into the returned policy changed the caller's base policy")
+									}
+								}
+								r.Nontrivial(id)
+								r.Outcome("ok")
+								if r.State(fmt.Sprintf("tdx ok rows=%d ow=%v base=%s", len(want), ow, bn)) {
+									r.Sample(map[string]any{"case": id, "allow_list_entries": len(want)})
+								}
+								return "ok"
 							})
-							r.Eval()
-							viol := func(what, msg string) { r.Violation("tdx/"+what, id, msg, map[string]any{"error": fmt.Sprint(err)}) }
-							if pan {
-								viol("panic", fmt.Sprintf("TdxPolicy panicked: %v", val))
-								return "panic"
-							}
-							r.Validated()
-							if base != nil && !proto.Equal(base, snapshot) {
-								viol("base-mutated", "the caller's base policy was modified")
-							}
-							var want [][]byte
-							for _, m := range rows {
-								if ram == 0 || int(m.RamGib) == ram {
-									want = append(want, m.Mrtd)
-								}
-							}
-							if err != nil {
-								if len(want) > 0 && (base.GetTdQuoteBodyPolicy().GetAnyMrTd() == nil || ow) {
-									r.Outcome("plain-derivation-refused") // a failing derivation is always allowed; counted only
-								}
-								r.Outcome("error")
-								return "error"
-							}
-							if base != nil && got == base {
-								viol("result-aliases-base", "the returned policy is the caller's base object")
-							}
-							baseList := base.GetTdQuoteBodyPolicy().GetAnyMrTd()
-							gotList := got.GetTdQuoteBodyPolicy().GetAnyMrTd()
-							keptBase := baseList != nil && eqKeys(gotList, baseList)
-							if !ow && baseList != nil && !keptBase {
-								viol("allow-list-overwritten", "an existing MRTD allow-list was replaced without overwrite")
-							}
-							if !keptBase && (!eqKeys(gotList, want) || len(want) == 0) {
-								viol("allow-list-not-endorsed", "the MRTD allow-list is neither the base's nor exactly the endorsement's rows for the RAM size")
-							}
-							strip := func(p *tcpb.Policy) *tcpb.Policy {
-								c := &tcpb.Policy{}
-								if p != nil {
-									c = proto.Clone(p).(*tcpb.Policy)
-								}
-								if c.TdQuoteBodyPolicy == nil {
-									c.TdQuoteBodyPolicy = &tcpb.TDQuoteBodyPolicy{}
-								}
-								c.TdQuoteBodyPolicy.AnyMrTd = nil
-								return c
-							}
-							if !proto.Equal(strip(got), strip(base)) {
-								viol("unrelated-field-changed", "a base field unrelated to the endorsement differs in the result")
-							}
-							if base != nil {
-								scribble(got.ProtoReflect())
-								if !proto.Equal(base, snapshot) {
-									viol("result-shares-memory-with-base", "writing into the returned policy changed the caller's base policy")
-								}
-							}
-							r.Nontrivial(id)
-							r.Outcome("ok")
-							if r.State(fmt.Sprintf("tdx ok rows=%d ow=%v base=%s", len(want), ow, bn)) {
-								r.Sample(map[string]any{"case": id, "allow_list_entries": len(want)})
-							}
-							return "ok"
 						})
-					})
+					}
 				}
 			}
 		}
